@@ -49,15 +49,27 @@ TRUSTED = [
     "Coq 8.16.1 kernel + vm_compute",
     "hand-written model coq/Model/IO.v of utils/io.py, _MultiTensor.to_dict / keyword constructors, "
     "TensorFrame.validate and Dataset.materialize(path), tied to /repo by this run's observational correspondence",
-    "torch.save / torch.load (zip + pickle byte format): NOT modelled; opaque enc/dec pair under the two section "
-    "hypotheses H_dec_enc and H_load_prefix_fails, validated against the real torch on this run (round trips; "
-    "truncation sweep)",
+    "torch.save / torch.load (zip + pickle byte format, incl. the weights_only=True / safe-globals fallback of "
+    "io.load, which lives inside `dec`): NOT modelled; opaque enc/dec pair under the two section hypotheses H_dec_enc "
+    "and H_load_prefix_fails, validated against the real torch on this run (round trips; truncation sweep)",
     "modelled primitives: validate() of MultiNestedTensor / MultiEmbeddingTensor (coq/Model/IORun.v), the fresh "
     "computation of materialize and the converter as a function of the statistics it holds (abstract)",
     "coq/Gen/Tables.v storage flags incl. use_multi_tensor, regenerated from /repo (fail-closed census of use_* flags)",
     "harness/c11.py + harness/dfgen.py (generator, plain-Python readers, reference cache automaton)",
 ]
 ASSUMPTIONS = [
+    "two clauses of the property rest on the Section hypotheses about torch's codec, not on a proof about bytes: "
+    "'loading returns equal tensor CONTENTS and equal statistics VALUES' is H_dec_enc (tensors and statistics are "
+    "opaque to the model) and 'a file cut short at any point raises' is H_load_prefix_fails "
+    "(truncated_file_never_loads only pushes it through the first line of load); what is proved about repository code "
+    "is deserialize . serialize = id per storage class over the generated flags, that validate accepts the result, and "
+    "the materialize/cache state machine; both hypotheses are validated against the real torch on every run",
+    "the cache path is written by a dataset over the SAME table its later readers use: a path written by a dataset "
+    "over OTHER rows is a foreign/stale cache and outside the quantifier -- this includes a DERIVED dataset "
+    "(ds[1:3], ds.shuffle(), materialized by inheritance) that calls materialize(path) while no file exists: it writes "
+    "its row subset together with the PARENT's statistics, and a later full-table materialize(path) loads that "
+    "(len(ds) 4, tensor_frame.num_rows 2, no error); the harness skips exactly that event and the model's live object "
+    "always holds the fresh frame of the one table",
     "a crash during torch.save leaves a prefix of the complete file (sequential write, no atomic rename)",
     "the DataFrame and the Dataset configuration do not change between the process that wrote the cache and the one "
     "that reads it (a stale cache is outside the property)",
@@ -635,6 +647,9 @@ def run_history(case):
                     st.update(len=length, k=k)
                     cur = ref.new()
             elif ev["e"] == "derived":
+                # With no file yet, a derived dataset would WRITE the cache: its row subset plus the parent's
+                # statistics.  That path then belongs to other rows than its later readers' table -- a
+                # foreign cache, outside the property's quantifier (see ASSUMPTIONS); the event is skipped.
                 if before == "absent" or not cur.is_materialized:
                     st["skipped"] = "no cache file" if before == "absent" else "live dataset not materialized"
                 else:
@@ -733,7 +748,8 @@ def run_trunc(case):
             return {"ok": False, "exc": "no-file", "msg": "materialize(path) wrote no file"}
         b = open(p, "rb").read()
         ks = trunc_points(case, b)
-        obs.update(ok=True, len=len(b), tried=len(ks), control=file_state(p, f_obs, f_stats), load_returned=[],
+        obs.update(ok=True, len=len(b), tried=len(ks), special={"0": 0 in ks, "1": 1 in ks, "len-1": len(b) - 1 in ks},
+                   control=file_state(p, f_obs, f_stats), load_returned=[],
                    mat_returned=[], exc_types={})
         for k in ks:
             with open(q, "wb") as f:
@@ -1067,6 +1083,59 @@ def stats(cases, obss):
     fl = d.pop("file_len")
     d["file_len_min_max"] = [min(fl), max(fl)] if fl else None
     return d
+
+
+def sanity(cases, obss):
+    """Fail-closed distribution check: a run that did not draw what the property quantifies over is not green."""
+    probs = []
+    ev_run, variants, sts, states = {}, set(), set(), set()
+    featureless = featureless_rows = trunc = 0
+    special = {"0": 0, "1": 0, "len-1": 0}
+    strict_cut_then_read = 0
+    for c, o in zip(cases, obss):
+        if c is None or o is None or "skip" in o or "harness_exc" in o:
+            continue
+        sts.update(stypes_of(c))
+        if c["kind"] == "saveload":
+            variants.add(c["variant"]["v"])
+            if c["variant"]["v"] == "featureless":
+                featureless += 1
+                featureless_rows += 1 if o.get("pre", {}).get("n", 0) > 0 else 0
+        elif c["kind"] == "history":
+            steps = o.get("steps", [])
+            for j, (e, s) in enumerate(zip(c["events"], steps)):
+                states.add(s["before"])
+                if "skipped" not in s:
+                    ev_run[e["e"]] = ev_run.get(e["e"], 0) + 1
+                    if e["e"] in ("new", "newdf") and s["before"] == "corrupt":
+                        strict_cut_then_read += 1
+        elif o.get("ok"):
+            trunc += 1
+            for k in special:
+                special[k] += 1 if o["special"][k] else 0
+    for k in ("mat", "new", "newdf", "derived", "rewrite", "cut", "crash", "conv"):
+        if ev_run.get(k, 0) == 0:
+            probs.append(f"history event kind {k!r} never executed")
+    for st in ("absent", "complete", "corrupt"):
+        if st not in states:
+            probs.append(f"no history event met the cache file in state {st!r}")
+    if strict_cut_then_read == 0:
+        probs.append("no new Dataset.materialize(path) ran against a cache file cut short")
+    for v in ("whole", "slice", "slice2", "index", "catrows", "catcols", "empty", "featureless"):
+        if v not in variants:
+            probs.append(f"save/load variant {v!r} never drawn")
+    if featureless == 0 or featureless_rows == 0:
+        probs.append("no feature-less frame with an explicit num_rows > 0 drawn")
+    for st in ("numerical", "categorical", "multicategorical", "sequence_numerical", "timestamp", "embedding",
+               "text_embedded", "image_embedded", "text_tokenized"):
+        if st not in sts:
+            probs.append(f"stype {st} never drawn")
+    if trunc == 0:
+        probs.append("no truncation sweep ran")
+    for k, v in special.items():
+        if trunc and v == 0:
+            probs.append(f"truncation point {k} never tried")
+    return probs
 
 
 # ------------------------------------------------------------------ Coq side
